@@ -23,12 +23,15 @@ Record env := {
   e_logs : list (logid * option bytes);
   e_raws : list (bytes * option (psth * list (logid * bool)));
   e_hashes : htable;
-  e_strict : bool
+  e_strict : bool;
+  e_cosign_held : bool
 }.
 
 (* THE switch between the code as it is and the code with pending_fixes/C19-1 applied
    (32-byte proof nodes enforced): flip to [true] when the fix is committed. *)
 Definition code_is_strict : bool := false.
+(* ... and for pending_fixes/C19-2 (refusals and no-ops answered with the held STH cosigned). *)
+Definition code_cosigns_held : bool := false.
 
 Definition env_idhash (e : env) (id : logid) : option (option bytes) :=
   match find (fun x => bytes_eqb (fst x) id) (e_logs e) with Some x => Some (snd x) | None => None end.
@@ -103,7 +106,7 @@ Definition out_matches (oo : op * out) (o : obs) : bool :=
   end.
 
 Definition model_run (e : env) (ops : list op) : state * list out :=
-  run (table_hash (e_hashes e)) 32 (e_strict e) (env_idhash e) (env_decode e) (env_sig_ok e) id_sign [] ops.
+  run (table_hash (e_hashes e)) 32 (e_strict e) (e_cosign_held e) (env_idhash e) (env_decode e) (env_sig_ok e) id_sign [] ops.
 
 Fixpoint all2 {A B} (f : A -> B -> bool) (a : list A) (b : list B) : bool :=
   match a, b with
